@@ -207,6 +207,12 @@ def _drive(rep: Report, tier: str, seed: int, P: Any, d: Path, futs: dict[str, A
         cp = P.Container(w, "plain", "all", d)
         for o in ops_all:
             batch.add(w, P.run_reader_session(c0, [o]), meta("reader", c0, "enum"))
+        # forward reads during which len(reader) is asked for (fresh reader: the offset table is built then)
+        for lenat in range(0, ln + 1):
+            for p_, off in ((8, 0), (5, 0), (8, 1)):
+                o = dict(P.op("fwd", p_, 0, off), lenat=lenat)
+                batch.add(w, P.run_reader_session(c0, [o]), meta("reader", c0, "enum-len-during-read"))
+                batch.add(w, P.run_reader_session(cp, [o, P.op("fwd", 8)]), meta("reader", cp, "enum-len-during-read"))
         for f in (ops_all if ln <= full_pairs_upto else firsts):
             for o in (ops_small if quick else ops_all):
                 batch.add(w, P.run_reader_session(cp, [f, o]), meta("reader", cp, "enum2"))
